@@ -4,11 +4,14 @@ Line-protocol driver of the C14 model (`Model/ServerAuth`).
   cfg <admin:-|S> <primary:S> <maxDbs>                    → ok
   req <VERB> <target> <auth> <ct> <accept> <body…>        → one canonical response line
         target : / | db:S | dbp:S | badutf8:S | unrouted:S   (the last two carry the raw path for the harness)
+                 | raw:S  (the raw request target, path and query: routed by `routePath`)
         auth   : - | S (the raw Authorization header bytes)
         ct, accept : cbor | json | -
         body   : malformed | rpc <method:S> <name:-|S> <apikey:-|S> <fresh:S> <pvar>
         S      : x<hex of UTF-8 bytes> | =<literal, `~` for a space>
   restart                                                  → ok dbs=<sorted open databases>
+  wire401 <cbor|json>                                      → status, header set and body bytes (hex) of the rejection
+  route <S>                                                → root | db:<name> | badutf8 | unrouted for a raw target
   tables                                                   → the generated parse tables with their labels
   state                                                    → bound / opened / registry (debugging)
 -/
@@ -75,22 +78,25 @@ def showPrincipal : Option Principal → String
   | some .admin => "admin"
   | some .database => "database"
 
-def showErr : ApiError → String
-  | .unauthorized => "401 unauthorized -"
-  | .unsupportedMediaType => "415 unsupported_media_type -"
-  | .badBody => "400 bad_request body"
-  | .methodNotFound m => s!"400 method_not_found m:{xhex m}"
-  | .invalidParams => "400 invalid_input params"
-  | .invalidName => "400 invalid_input name"
-  | .emptyKey => "400 invalid_input emptykey"
-  | .needsAdminKey => "409 conflict needsadmin"
-  | .primaryNotDelegable => "409 conflict primarykey"
-  | .primaryCannotClose => "400 invalid_input primaryclose"
-  | .dbExists n => s!"409 already_exists db:{xhex n}"
-  | .limitExceeded => "409 limit_exceeded -"
-  | .dbNotFound n => s!"404 not_found db:{xhex n}"
-  | .internal => "500 internal -"
-  | .unknownHandler h => s!"599 unknown_handler {xhex h}"
+/-- code and message class of an error; the status comes from the model (`ApiError.status`) -/
+def showErrKind : ApiError → String
+  | .unauthorized => "unauthorized -"
+  | .unsupportedMediaType => "unsupported_media_type -"
+  | .badBody => "bad_request body"
+  | .methodNotFound m => s!"method_not_found m:{xhex m}"
+  | .invalidParams => "invalid_input params"
+  | .invalidName => "invalid_input name"
+  | .emptyKey => "invalid_input emptykey"
+  | .needsAdminKey => "conflict needsadmin"
+  | .primaryNotDelegable => "conflict primarykey"
+  | .primaryCannotClose => "invalid_input primaryclose"
+  | .dbExists n => s!"already_exists db:{xhex n}"
+  | .limitExceeded => "limit_exceeded -"
+  | .dbNotFound n => s!"not_found db:{xhex n}"
+  | .internal => "internal -"
+  | .unknownHandler h => s!"unknown_handler {xhex h}"
+
+def showErr (e : ApiError) : String := s!"{e.status} {showErrKind e}"
 
 def showResult : RootResult → String
   | .info p dbs => s!"info primary={match p with | some x => xhex x | none => "-"} dbs={showNames dbs}"
@@ -121,6 +127,8 @@ def target? (t : String) : Option Target :=
   else if t.startsWith "unrouted" then some .unrouted
   else if t.startsWith "db:" then (xstr? (t.drop 3).toString).map .db
   else if t.startsWith "dbp:" then (xstr? (t.drop 4).toString).map .db
+  -- the raw request target (path and query): the model does the routing
+  else if t.startsWith "raw:" then (xbytes? (t.drop 4).toString).map routePath
   else none
 
 def body? : List String → Option (Body × String)
@@ -174,6 +182,22 @@ def step (d : DrvState) (line : String) : DrvState × String :=
   | ["restart"] =>
     let s' := restart d.cfg d.s
     ({ d with s := s' }, s!"ok dbs={showNames s'.opened}")
+  | ["wire401", e] =>
+    match enc? e with
+    | some (some enc) =>
+      let w := rejectionWire enc
+      let hs := ";".intercalate (w.headers.map fun (k, v) => s!"{k}={v}")
+      (d, s!"{w.status} {hs} {String.ofList (w.body.flatMap fun b => [hexDigit (b / 16), hexDigit (b % 16)])}")
+    | _ => (d, "err:parse")
+  | ["route", t] =>
+    match xbytes? t with
+    | some bs =>
+      (d, match routePath bs with
+        | .root => "root"
+        | .db n => s!"db:{xhex n}"
+        | .badUtf8 => "badutf8"
+        | .unrouted => "unrouted")
+    | none => (d, "err:parse")
   | ["tables"] =>
     (d, s!"root:{showTable Gen.ServerMethods.rootParse} db:{showTable Gen.ServerMethods.dbParse}")
   | ["state"] =>
